@@ -22,8 +22,8 @@ enum { KA, KB, KC, KD, KE, KF, KG };
 #ifndef ELMAX
 #define ELMAX 64
 #endif
-static const int kinds[4] = { BN_KINDS };
-#define BN_KMAX 3
+static const int kinds[6] = { BN_KINDS };
+#define BN_KMAX 5
 
 struct in_c08 {
     uint64_t tt;
@@ -98,8 +98,12 @@ void h_bundle(void)
     size_t r = rtosc_bundle(buf, cap, IN.tt, 1, el[0]);
 #elif BN_K == 2
     size_t r = rtosc_bundle(buf, cap, IN.tt, 2, el[0], el[1]);
-#else
+#elif BN_K == 3
     size_t r = rtosc_bundle(buf, cap, IN.tt, 3, el[0], el[1], el[2]);
+#elif BN_K == 4
+    size_t r = rtosc_bundle(buf, cap, IN.tt, 4, el[0], el[1], el[2], el[3]);
+#else
+    size_t r = rtosc_bundle(buf, cap, IN.tt, 5, el[0], el[1], el[2], el[3], el[4]);
 #endif
     size_t k = IN.k;
     if(cap < need) {
